@@ -1,6 +1,7 @@
 import AmaranthVerif.Proofs.DomainQuiet
 import AmaranthVerif.Spec.DomainSpec
 import AmaranthVerif.Proofs.ProcessSpec
+import AmaranthVerif.Proofs.ResetSpec
 
 /-!
 # C03 — clock domains, resets and control inserters behave as specified
@@ -17,8 +18,11 @@ Proved here for all designs, states and events:
 * `quiet_event` — an event with no active edge and no reset rise in any domain leaves every register as it is;
 * `enable_inserter_exec` / `enable_inserters_and` — an inserted enable runs the wrapped statements
   exactly when its control is 1, and is the identity on the pending state otherwise; nested enables combine by AND;
-* `reset_inserter_exec` / `reset_inserters_or` — an inserted reset runs the wrapped statements and then,
-  exactly when its control is 1, the reset assignments; two inserted resets act when either control is 1;
+* `reset_inserter_exec` / `reset_inserter_bits` / `reset_inserters_or` — an inserted reset runs the wrapped statements
+  and then, exactly when its control is 1, the reset assignments, which load the initial value into exactly the driven
+  bits of the non-reset-less signals the wrapped statements drive (`resetStmts_bits`: the chunks of
+  `LHSMaskCollector` cover exactly the mask); two inserted resets act when either control is 1;
+* `async_reset_loads_init` — a rising asynchronous reset loads the initial value into exactly those bits;
 * `enable_freezes_inner_reset` — a reset inserted inside an enable is frozen with it;
 * `sync_reset_loads_init` — with the domain reset asserted at the active edge every resettable driven
   signal gets its initial value as its pending value; reset-less signals keep the assigned one;
@@ -34,9 +38,12 @@ Proved here for all designs, states and events:
   the process drives takes its initial value, bit for bit; reset-less signals take the assigned values as without
   reset; undriven bits keep theirs.
 
-Not proved for all inputs (compared on every run): that the reset assignments (`signal[chunk] :=
-init[chunk]` per driven chunk) load exactly the driven bits — the bit-level `assign_bits` lemma
-shared with C02 — and the combinational settling.
+Not proved for all inputs (compared on every run): the combinational settling after the synchronous phase, and
+Model = `Spec/DomainSpec.lean` as a whole (no theorem mentions the Spec's `specEvent`; the theorems here are about
+the Model, whose agreement with the Spec and the code is checked on every run). `sync_no_reset`,
+`sync_reset_loads_init`, `async_reset_only_resettable`, `renamer_moves_only_domain` and `inserter_other_domain`
+only unfold the Model's definitions: they record its shape, the content is in the `*_bits`, `edge_*`, `only_own_edge`
+and inserter theorems.
 -/
 
 namespace Amaranth.C03
@@ -134,6 +141,74 @@ theorem sync_reset_loads_init (ctx : Ctx) (inits : Env) (rl : List Bool) (r : In
 theorem sync_no_reset (ctx : Ctx) (inits : Env) (rl : List Bool) (body : Stmt) (cur : Env) :
     syncNext ctx inits rl none body cur = execRtl ctx cur body cur := rfl
 
+/-- the bits an inserted (or the domain's) reset loads: driven bits of resettable signals the body drives -/
+def resetBit (D : Design) (body : Stmt) (i b : Nat) : Bool :=
+  (stmtSigs body).contains i && !(D.resetLess.getD i false) &&
+    ibit ((stmtMask D.ctx body (List.replicate D.ctx.length 0)).get i) b
+
+/-- `ResetInserter`, bit by bit: after the wrapped statements, exactly when the control is 1, every driven bit of
+every non-reset-less signal the wrapped statements drive takes its initial value; no other bit changes. -/
+theorem reset_inserter_bits (D : Design) (cur : Env) (hok : EnvOk D.ctx cur) (hI : EnvN D.ctx D.inits) (dom : Nat)
+    (ctl : Expr) (hc : ctl.wf D.ctx = true) (p : Proc) (hp : p.dom = some dom)
+    (htw : ∀ e ∈ stmtTargets p.body, e.twf D.ctx = true) (nxt : Env)
+    (hE : EnvN D.ctx (execRtl D.ctx cur p.body nxt)) (i b : Nat) (hi : i < D.ctx.length)
+    (hb : b < (D.ctx.shape i).width) :
+    bitAt (execRtl D.ctx cur (resetInserter D dom ctl p).body nxt) i b =
+      if ctlOn D.ctx cur ctl && resetBit D p.body i b then bitAt D.inits i b
+      else bitAt (execRtl D.ctx cur p.body nxt) i b := by
+  rw [reset_inserter_exec D cur hok dom ctl hc p hp nxt]
+  simp only
+  cases hon : ctlOn D.ctx cur ctl with
+  | false => simp
+  | true =>
+    simp only [if_true, Bool.true_and]
+    exact (resetStmts_bits D.ctx cur hok D.inits hI D.resetLess p.body htw _ hE).2 i b hi hb
+
+/-- **Several reset inserters combine by OR**: two nested `ResetInserter`s of one domain load the initial values
+exactly when either control is 1 — into the same bits a single one would (the inserted reset assignments do not
+change what the body drives: `reset_wrap_keeps_drive`). -/
+theorem reset_inserters_or (D : Design) (cur : Env) (hok : EnvOk D.ctx cur) (hI : EnvN D.ctx D.inits) (dom : Nat)
+    (a b' : Expr) (ha : a.wf D.ctx = true) (hb' : b'.wf D.ctx = true) (p : Proc) (hp : p.dom = some dom)
+    (htw : ∀ e ∈ stmtTargets p.body, e.twf D.ctx = true) (nxt : Env)
+    (hE : EnvN D.ctx (execRtl D.ctx cur p.body nxt)) (i b : Nat) (hi : i < D.ctx.length)
+    (hb : b < (D.ctx.shape i).width) :
+    bitAt (execRtl D.ctx cur (resetInserter D dom a (resetInserter D dom b' p)).body nxt) i b =
+      if (ctlOn D.ctx cur a || ctlOn D.ctx cur b') && resetBit D p.body i b then bitAt D.inits i b
+      else bitAt (execRtl D.ctx cur p.body nxt) i b := by
+  have hp' : (resetInserter D dom b' p).dom = some dom := by unfold resetInserter; simp [hp]
+  have hbody : (resetInserter D dom b' p).body =
+      Stmt.seq p.body (.ite b' (onePattern D.ctx b') (resetStmts D.ctx D.inits D.resetLess p.body) .skip) := by
+    unfold resetInserter; simp [hp]
+  obtain ⟨k1, k2, k3⟩ := reset_wrap_keeps_drive D.ctx D.inits D.resetLess b' (onePattern D.ctx b') p.body htw
+  have hrb : resetBit D (resetInserter D dom b' p).body i b = resetBit D p.body i b := by
+    unfold resetBit; rw [hbody, k1, k2 i]
+  -- the inner inserter leaves a state of the design's shapes
+  have hE2 : EnvN D.ctx (execRtl D.ctx cur (resetInserter D dom b' p).body nxt) := by
+    rw [reset_inserter_exec D cur hok dom b' hb' p hp nxt]
+    simp only
+    split
+    · exact (resetStmts_bits D.ctx cur hok D.inits hI D.resetLess p.body htw _ hE).1
+    · exact hE
+  rw [reset_inserter_bits D cur hok hI dom a ha _ hp' (by rw [hbody]; exact k3) nxt hE2 i b hi hb, hrb,
+      reset_inserter_bits D cur hok hI dom b' hb' p hp htw nxt hE i b hi hb]
+  cases ctlOn D.ctx cur a <;> cases ctlOn D.ctx cur b' <;> cases resetBit D p.body i b <;> simp
+
+/-- A rising asynchronous reset loads the initial value into every driven bit of every resettable signal the
+domain's process drives (the positive half of `async_reset_only_resettable`), bit for bit. -/
+theorem async_reset_loads_init (ctx : Ctx) (inits : Env) (hI : EnvN ctx inits) (rl : List Bool) (body : Stmt)
+    (acc : Env) (hA : EnvN ctx acc) (i b : Nat) (hi : i < ctx.length) (hb : b < (ctx.shape i).width)
+    (h : (stmtSigs body).contains i = true ∧ rl.getD i false = false) :
+    bitAt (resetOnlyInto ctx inits rl body acc) i b =
+      if ibit ((stmtMask ctx body (List.replicate ctx.length 0)).get i) b then bitAt inits i b else bitAt acc i b := by
+  have hz : MaskOk ctx (List.replicate ctx.length 0) := by
+    intro j; rw [replicate_get, Shape.contains_u]; exact ⟨Int.le_refl _, two_pow_pos' _⟩
+  have htab := stmtMask_ok ctx body _ hz
+  unfold resetOnlyInto bitAt
+  simp only
+  rw [val_map_range _ _ _ hi]
+  simp only [h.1, h.2, Bool.not_false, Bool.and_self, if_true]
+  exact (commitMask_bits (ctx.shape i) (hA.ok i hi).1 _ _ _ (hA.ok i hi).2 (hI.ok i hi).2 (htab i)).2 b hb
+
 /-- At an active clock edge without reset, one synchronous process turns the state `acc` (what the processes before it
 left; equal to the current values on the bits this process drives — one driver per bit, C06) into `acc` with its
 active assignments applied, last one winning per bit. -/
@@ -200,5 +275,19 @@ def exD : Design :=
 example : (syncPhase exD [0, 1, 5, 0] [0, 1, 5, 1]) = [0, 1, 5, 1] := by decide
 example : (syncPhase exD [0, 1, 5, 0] [1, 1, 5, 0]) = [1, 1, 6, 0] := by decide
 example : (syncPhase exD [0, 0, 5, 0] [1, 0, 5, 0]) = [1, 0, 5, 0] := by decide
+
+/-- a process that drives only bits 0..1 of the 3-bit counter: the hypotheses of `reset_inserter_bits`,
+`reset_inserters_or`, `edge_writes` and `edge_reset` hold for it, and two nested inserted resets load exactly those
+two bits when either control is 1 -/
+def exPart : Proc := { dom := some 0, body := .assign (.slice (.sig 2) 0 2) (.const 3 ⟨2, false⟩) }
+example : (∀ e ∈ stmtTargets exPart.body, e.twf exBase.ctx = true) := by decide
+example : resetBit exBase exPart.body 2 0 = true ∧ resetBit exBase exPart.body 2 1 = true ∧
+    resetBit exBase exPart.body 2 2 = false := by decide
+example : ctlOn exBase.ctx [0, 1, 7, 0] (.sig 1) = true ∧ ctlOn exBase.ctx [0, 1, 7, 0] (.sig 3) = false := by decide
+example : execRtl exBase.ctx [0, 1, 7, 0] (resetInserter exBase 0 (.sig 3) (resetInserter exBase 0 (.sig 1) exPart)).body
+    [0, 1, 7, 0] = [0, 1, 5, 0] := by decide     -- bits 0..1 from init 5 = 0b101, bit 2 untouched (was 1)
+example : execRtl exBase.ctx [0, 0, 6, 0] (resetInserter exBase 0 (.sig 3) (resetInserter exBase 0 (.sig 1) exPart)).body
+    [0, 0, 6, 0] = [0, 0, 7, 0] := by decide     -- neither control is 1: the assignment only
+example : resetOnlyInto exBase.ctx exBase.inits exBase.resetLess exPart.body [0, 0, 2, 0] = [0, 0, 1, 0] := by decide
 
 end Amaranth.C03
